@@ -10,7 +10,15 @@ from .core import (Val, Unsupported, TPoison, T_EMPTY, T_LAMBDA, T_CLASS, T_BUIL
 
 SPEC_FORMS = {"old", "pre", "forall", "exists", "implies", "iff", "forall_obj", "forall_int", "exists_int",
               "let", "ite", "seq_eq", "is_none", "unchanged", "typeis", "elems", "idx_of", "count_int",
-              "forall_str", "fresh_obj", "unchanged_except", "to_int", "to_real", "forall_int_t", "sum_of", "sum_upto"}
+              "forall_str", "fresh_obj", "unchanged_except", "to_int", "to_real", "forall_int_t", "sum_of", "sum_upto", "is_perm", "sorted_by", "stable_wrt"}
+
+
+def _forall_pat(vs, body, patterns):
+    """ForAll with explicit patterns, falling back to inferred patterns when z3 rejects them (e.g. ite in a pattern)"""
+    try:
+        return z3.ForAll(vs, body, patterns=patterns)
+    except z3.Z3Exception:
+        return z3.ForAll(vs, body)
 
 
 class TKwargsT(TSpecial):
@@ -39,6 +47,32 @@ def abstract_over(term, kc):
         return r
     args, index = [], {}
     fail = [False]
+    COMM = {z3.Z3_OP_EQ, z3.Z3_OP_DISTINCT, z3.Z3_OP_AND, z3.Z3_OP_OR, z3.Z3_OP_ADD, z3.Z3_OP_MUL, z3.Z3_OP_IFF}
+    shapes = {}
+
+    def shape(e):
+        i = e.get_id()
+        if i in shapes:
+            return shapes[i]
+        if not contains(e):
+            r = e.sexpr() if (z3.is_int_value(e) or z3.is_rational_value(e) or z3.is_true(e) or z3.is_false(e)) else "?%s" % e.sort()
+        elif z3.is_quantifier(e):
+            r = "Q"
+        elif e.eq(kc):
+            r = "K"
+        else:
+            cs = [shape(c) for c in e.children()]
+            if e.decl().kind() in COMM:
+                cs = sorted(cs)
+            r = "(%s %s)" % (e.decl().name(), " ".join(cs))
+        shapes[i] = r
+        return r
+
+    def kids(e):
+        cs = list(e.children())
+        if e.decl().kind() in COMM:
+            cs = sorted(cs, key=shape)
+        return cs
 
     def go(e):
         if not contains(e):
@@ -54,7 +88,7 @@ def abstract_over(term, kc):
             return "Q"
         if e.eq(kc):
             return "K"
-        return "(%s %s)" % (e.decl().name() + "/" + str(e.decl().kind()), " ".join(go(c) for c in e.children()))
+        return "(%s %s)" % (e.decl().name() + "/" + str(e.decl().kind()), " ".join(go(c) for c in kids(e)))
     t = go(term)
     if fail[0]:
         return None, None
@@ -270,6 +304,10 @@ class CallMixin:
             st.heap[key] = new_arr if is_true(live) else z3.If(zbool(live), new_arr, old_arr)
             st.written.add(key)
         res = None
+        if c.returns is not None and c.result_is is not None and not c.modifies:
+            # functional contract: the result IS the stated expression (the callee proves `result == <expr>`)
+            val = self.eval_spec_val(c.result_is, env, st, old_heap=old_heap, old_env=env)
+            return self.coerce(val, c.returns, node)
         if c.returns is not None:
             cache_key = None
             if c.pure and not c.modifies and not self.binders:
@@ -287,9 +325,13 @@ class CallMixin:
         env2 = dict(env)
         if res is not None:
             env2["result"] = res
-        for e in c.ensures:
-            g = self.eval_spec(e, env2, st, old_heap=old_heap, old_env=env)
-            self.assume(g, st)
+        self.assuming_post += 1
+        try:
+            for e in c.ensures:
+                g = self.eval_spec(e, env2, st, old_heap=old_heap, old_env=env)
+                self.assume(g, st)
+        finally:
+            self.assuming_post -= 1
         if res is None:
             return Val(TNone, self.S.none_val)
         return res
@@ -426,7 +468,7 @@ class CallMixin:
                 b = self.truth(self.apply_fn(lam, [Val(TInt, k)], st, node))
             finally:
                 self.binders.pop()
-            return Val(TBool, z3.ForAll([k], z3.Implies(T(k), b), patterns=[T(k)]))
+            return Val(TBool, _forall_pat([k], z3.Implies(T(k), b), [T(k)]))
         if name == "forall_obj":
             cls = a[0].value
             lam = self.ev(a[1], st)
@@ -464,6 +506,43 @@ class CallMixin:
                 return Val(rt, acc)
             ps, bvs = self.prefix_sum_fn(n, g, rt, st, node)
             return Val(rt, ps(*bvs, upto))
+        if name == "is_perm":
+            A, B = self.ev(a[0], st), self.ev(a[1], st)
+            return Val(TBool, self.is_perm(A, B, st, node))
+        if name in ("sorted_by", "stable_wrt"):
+            R = self.ev(a[0], st)
+            lam = self.ev(a[1], st)
+            rev = False
+            if len(a) > 2:
+                rv = z3.simplify(self.truth(self.ev(a[2], st)))
+                rev = is_true(rv)
+            if R.ty.kind == "EmptyList":
+                return Val(TBool, z3.BoolVal(True))
+            n = self.list_len(R)
+            E = lambda i: Val(R.ty.elem, self.list_get(R, i))
+            keyf = lambda x: self.apply_fn(lam, [x], st, node)
+
+            def le(x, y):
+                kx, ky = keyf(x), keyf(y)
+                if kx.ty.kind == "Tuple":
+                    return self.lex_compare(ast.GtE() if rev else ast.LtE(), kx, ky, node)
+                xx, yy, _ = self.num_unify(kx, ky, node)
+                return (xx.z >= yy.z) if rev else (xx.z <= yy.z)
+            if self.mode == "UNROLL":
+                parts = []
+                for i in range(self.bound):
+                    for j in range(i + 1, self.bound):
+                        parts.append(z3.Implies(z3.IntVal(j) < n, le(E(z3.IntVal(i)), E(z3.IntVal(j)))))
+                return Val(TBool, z3.And(*parts) if parts else z3.BoolVal(True))
+            j, k = self.qvar("j"), self.qvar("k")
+            self.binders.append((j, z3.And(j >= 0, j < n)))
+            self.binders.append((k, z3.And(k > j, k < n)))
+            try:
+                body = le(E(j), E(k))
+            finally:
+                self.binders.pop()
+                self.binders.pop()
+            return Val(TBool, z3.ForAll([j, k], z3.Implies(z3.And(j >= 0, j < k, k < n), body)))
         if name == "to_int":
             v = self.ev(a[0], st)
             return Val(TInt, z3.ToInt(self.coerce(v, TReal, node).z))
@@ -507,6 +586,49 @@ class CallMixin:
                 return Val(TSet(v.ty.elem), s)
             return Val(TSet(v.ty.elem), z3.Lambda([x], self.member(Val(v.ty.elem, x), v, node)))
         raise Unsupported("spec form %s" % name, node)
+
+    def is_perm(self, A, B, st, node=None):
+        """A is a permutation of B.
+        As a goal it is decided structurally: A must be (an if-then-else tree over) B itself or results of sorted()
+        applied to permutations of B; as an assumption (callee postcondition) it provides the bijection."""
+        if A.ty.kind == "EmptyList" or B.ty.kind == "EmptyList":
+            return self.list_len(A) == self.list_len(B)
+        if self.assuming_post:
+            n = self.list_len(B)
+            if self.mode == "UNROLL":
+                parts = [self.list_len(A) == n]
+                es = self.S.sort(A.ty.elem)
+                cands = []
+                for i in range(self.bound):
+                    cands.append(self.list_get(B, z3.IntVal(i)))
+                # equal multiplicities of every element of B (finite)
+                for c in cands:
+                    ca = z3.Sum([z3.If(z3.And(z3.IntVal(i) < n, self.list_get(A, z3.IntVal(i)) == c), 1, 0) for i in range(self.bound)])
+                    cb = z3.Sum([z3.If(z3.And(z3.IntVal(i) < n, self.list_get(B, z3.IntVal(i)) == c), 1, 0) for i in range(self.bound)])
+                    parts.append(ca == cb)
+                return z3.And(*parts)
+            pi = z3.Function("perm!%d" % next(self.counter), z3.IntSort(), z3.IntSort())
+            pinv = z3.Function("pinv!%d" % next(self.counter), z3.IntSort(), z3.IntSort())
+            k = self.qvar("k")
+            return z3.And(self.list_len(A) == n,
+                          _forall_pat([k], z3.Implies(z3.And(k >= 0, k < n), z3.And(
+                              pi(k) >= 0, pi(k) < n, self.list_get(A, k) == self.list_get(B, pi(k)), pinv(pi(k)) == k)), [self.list_get(A, k)]),
+                          _forall_pat([k], z3.Implies(z3.And(k >= 0, k < n), z3.And(
+                              pinv(k) >= 0, pinv(k) < n, pi(pinv(k)) == k)), [self.list_get(B, k)]))
+        return self.perm_structural(A.z, B.z, 0)
+
+    def perm_structural(self, az, bz, depth):
+        if az.eq(bz):
+            return z3.BoolVal(True)
+        if depth > 12:
+            return z3.BoolVal(False)
+        if z3.is_app_of(az, z3.Z3_OP_ITE):
+            c, x, y = az.children()
+            return z3.If(c, self.perm_structural(x, bz, depth + 1), self.perm_structural(y, bz, depth + 1))
+        src = self.sorted_from.get(az.get_id())
+        if src is not None:
+            return self.perm_structural(src, bz, depth + 1)
+        return z3.BoolVal(False)
 
     def in_footprint(self, x, fp, node=None):
         if fp.ty.kind == "Ref":
@@ -670,12 +792,10 @@ class CallMixin:
             pk = self.truth(self.apply_fn(fn, [Val(et, self.list_get(lst, k))], st, node), node)
         finally:
             self.binders.pop()
-        self.assume(z3.ForAll([k], z3.Implies(z3.And(k >= 0, k < n), z3.Select(s, self.list_get(lst, k)) == pk),
-                              patterns=[self.list_get(lst, k)]), st)
+        self.assume(_forall_pat([k], z3.Implies(z3.And(k >= 0, k < n), z3.Select(s, self.list_get(lst, k)) == pk), [self.list_get(lst, k)]), st)
         x = self.qvar("x", es)
         idx = z3.Function("fsetidx!%d" % next(self.counter), es, z3.IntSort())
-        self.assume(z3.ForAll([x], z3.Implies(z3.Select(s, x), z3.And(idx(x) >= 0, idx(x) < n, self.list_get(lst, idx(x)) == x)),
-                              patterns=[z3.Select(s, x)]), st)
+        self.assume(_forall_pat([x], z3.Implies(z3.Select(s, x), z3.And(idx(x) >= 0, idx(x) < n, self.list_get(lst, idx(x)) == x)), [z3.Select(s, x)]), st)
         self.trusted.add("set(filter(pred, L)) = the set of elements of L satisfying pred")
         return Val(TSet(et), s)
 
@@ -822,6 +942,16 @@ class CallMixin:
 
     def bi_sum(self, args, kwargs, st, node):
         src = args[0]
+        if src.ty.kind == "Iter" and src.py[0] == "values":
+            d = src.py[1]
+            sd = self.S.sort(d.ty)
+            if self.mode == "UNROLL" and self.S.str_consts is not None:
+                acc = z3.RealVal(0)
+                for c in self.S.str_consts:
+                    acc = acc + z3.If(z3.Select(sd.dom(d.z), c), z3.Select(sd.val(d.z), c), z3.RealVal(0))
+                return Val(d.ty.v, acc)
+            self.trusted.add("sum(dict.values()) is an uninterpreted function of the dict value")
+            return Val(d.ty.v, self.uf("dict_sum_%s" % sd, sd, self.S.sort(d.ty.v))(d.z))
         n, g, et = self.as_view(src, st, node)
         if et is None:
             et = self.elem_type_of_view(n, g, st)
@@ -872,8 +1002,7 @@ class CallMixin:
             zero = z3.RealVal(0) if rt == TReal else z3.IntVal(0)
             body0 = ps(*args, z3.IntVal(0)) == zero
             try:
-                step = z3.ForAll([kc], z3.Implies(kc >= 0, ps(*args, kc + 1) == ps(*args, kc) + term_c),
-                                 patterns=[ps(*args, kc + 1)])
+                step = _forall_pat([kc], z3.Implies(kc >= 0, ps(*args, kc + 1) == ps(*args, kc) + term_c), [ps(*args, kc + 1)])
             except z3.Z3Exception:
                 step = z3.ForAll([kc], z3.Implies(kc >= 0, ps(*args, kc + 1) == ps(*args, kc) + term_c))
             g0 = z3.substitute(term_c, (kc, z3.IntVal(0)))
@@ -904,6 +1033,8 @@ class CallMixin:
         n = self.list_len(src)
         lt = src.ty
         r = self.fresh_val(lt, "sorted")
+        self.sorted_from[r.z.get_id()] = src.z
+        self._keep_alive.append(r.z)
         self.trusted.add("sorted(): stable sort, result is a permutation of the argument ordered by key (A5)")
         self.assume(self.list_len(r) == n, st)
 
@@ -933,11 +1064,11 @@ class CallMixin:
         pi = z3.Function("perm!%d" % next(self.counter), *([b.sort() for b in bvs] + [z3.IntSort(), z3.IntSort()]))
         pinv = z3.Function("pinv!%d" % next(self.counter), *([b.sort() for b in bvs] + [z3.IntSort(), z3.IntSort()]))
         j, k = self.qvar("j"), self.qvar("k")
-        self.assume(z3.ForAll([k], z3.Implies(z3.And(k >= 0, k < n), z3.And(
+        self.assume(_forall_pat([k], z3.Implies(z3.And(k >= 0, k < n), z3.And(
             pi(*bvs, k) >= 0, pi(*bvs, k) < n, self.list_get(r, k) == self.list_get(src, pi(*bvs, k)),
-            pinv(*bvs, pi(*bvs, k)) == k)), patterns=[self.list_get(r, k)]), st)
-        self.assume(z3.ForAll([k], z3.Implies(z3.And(k >= 0, k < n), z3.And(
-            pinv(*bvs, k) >= 0, pinv(*bvs, k) < n, pi(*bvs, pinv(*bvs, k)) == k)), patterns=[self.list_get(src, k)]), st)
+            pinv(*bvs, pi(*bvs, k)) == k)), [self.list_get(r, k)]), st)
+        self.assume(_forall_pat([k], z3.Implies(z3.And(k >= 0, k < n), z3.And(
+            pinv(*bvs, k) >= 0, pinv(*bvs, k) < n, pi(*bvs, pinv(*bvs, k)) == k)), [self.list_get(src, k)]), st)
         self.binders.append((j, z3.And(j >= 0, j < n)))
         self.binders.append((k, z3.And(k > j, k < n)))
         try:
@@ -1024,9 +1155,9 @@ class CallMixin:
         # every element of the result comes from some inner list
         ow = z3.Function("flat_outer!%d" % next(self.counter), z3.IntSort(), z3.IntSort())
         iw = z3.Function("flat_inner!%d" % next(self.counter), z3.IntSort(), z3.IntSort())
-        self.assume(z3.ForAll([k], z3.Implies(z3.And(k >= 0, k < self.list_len(r)), z3.And(
+        self.assume(_forall_pat([k], z3.Implies(z3.And(k >= 0, k < self.list_len(r)), z3.And(
             ow(k) >= 0, ow(k) < n, iw(k) >= 0, iw(k) < self.list_len(sub(ow(k))), k == off(ow(k)) + iw(k),
-            self.list_get(r, k) == self.list_get(sub(ow(k)), iw(k)))), patterns=[self.list_get(r, k)]), st)
+            self.list_get(r, k) == self.list_get(sub(ow(k)), iw(k)))), [self.list_get(r, k)]), st)
         return r
 
     # ------------------------------------------------------------------ container methods
